@@ -92,6 +92,9 @@ def norm_dis(dis):
         c2.pop("instrs_tb", None)
         if isinstance(c2.get("instrs_gi"), dict) and "instrs" in c2["instrs_gi"]:
             c2["instrs_gi"] = norm_dis([{"instrs": c2["instrs_gi"]["instrs"]}])[0]["instrs"]
+        for key_ in ("instrs_ret_classic", "instrs_ret_asm"):
+            if isinstance(c2.get(key_), dict) and "instrs" in c2[key_]:
+                c2[key_] = norm_dis([{"instrs": c2[key_]["instrs"]}])[0]["instrs"]
         if isinstance(c2.get("instrs_loi"), dict) and "instrs" in c2["instrs_loi"]:
             c2["instrs_loi"] = norm_dis([{"instrs": c2["instrs_loi"]["instrs"]}])[0]["instrs"]
         if "co_lines" in c2:
